@@ -228,8 +228,41 @@ class Flattener:
             out.extend(self._stmt(st, stack, depth))
         return out
 
+    def _inlinable_call_in(self, e: ast.expr, stack) -> bool:
+        for n in ast.walk(e):
+            if isinstance(n, ast.Call):
+                r = resolve_callee(self.prog, self.fi, n, self.cls)
+                if r is not None and r[0].qualname not in stack and eligible(r[0]) and not _has_yield(r[0].node) and self._wanted(r[0]):
+                    return True
+        return False
+
+    def _lower_short_circuit(self, st: ast.If, stack, depth):
+        """``if a and helper(): …`` — the helper runs only when ``a`` holds, so it cannot be hoisted in front of the
+        test; the short-circuit is spelled out instead (only truthiness of the test matters):
+        ``t = a; if t: t = helper()`` then ``if t: …``.  Applied only when a later operand contains an inlinable helper."""
+        t = st.test
+        if not isinstance(t, ast.BoolOp) or depth >= self.max_depth:
+            return None
+        if not any(self._inlinable_call_in(v, stack) for v in t.values[1:]):
+            return None
+        g = f"_g{_Counter.fresh()}_c"
+        out: list[ast.stmt] = [ast.Assign(targets=[ast.Name(id=g, ctx=ast.Store())], value=t.values[0], lineno=st.lineno, col_offset=0)]
+        for v in t.values[1:]:
+            cond: ast.expr = ast.Name(id=g, ctx=ast.Load())
+            if isinstance(t.op, ast.Or):
+                cond = ast.UnaryOp(op=ast.Not(), operand=cond)
+            out.append(ast.If(test=cond, body=[ast.Assign(targets=[ast.Name(id=g, ctx=ast.Store())], value=v, lineno=st.lineno, col_offset=0)], orelse=[], lineno=st.lineno, col_offset=0))
+        st.test = ast.Name(id=g, ctx=ast.Load())
+        out.append(st)
+        for s_ in out:
+            ast.fix_missing_locations(s_)
+        return out
+
     def _stmt(self, st, stack, depth) -> list[ast.stmt]:
         if isinstance(st, ast.If):
+            low = self._lower_short_circuit(st, stack, depth)
+            if low is not None:
+                return self._block(low, stack, depth)
             pre, test = self._expr(st.test, stack, depth, st)
             st.test = test
             st.body = self._block(st.body, stack, depth) or [ast.Pass()]
